@@ -28,3 +28,160 @@ package jobs
 //@     ghost covered := to
 //@   at call Wait#1 before
 //@     assert [all-covered] covered == len(entities)
+
+// ---------------------------------------------------------------------------
+// C11: the ticket raffle: one run per job id, pools never exceeded, slot always released
+
+//@ guarded raffle.runningJobs by runningMu
+//@ writers [C11] raffle.runningJobs: NewRaffle, (*raffle).borrowTicket, (*raffle).returnTicket
+//@ writers [C11] raffle.ticketsFull: NewRaffle, (*raffle).borrowTicket, (*raffle).returnTicket
+//@ writers [C11] raffle.ticketsIncr: NewRaffle, (*raffle).borrowTicket, (*raffle).returnTicket
+
+//@ spec isFullP(p iface) bool
+//@ assumed (jobs.Pipeline).isFullSync
+//@   pure
+//@   ensures result == isFullP(recv)
+
+//@ assumed context.WithCancel
+//@   pure
+
+//@ unit (*raffle).borrowTicket
+//@   prop C11
+//@   requires r != nil && job != nil && r.runningJobs != nil && !has($held, addrOf(r.runningMu))
+//@   requires r.ticketsFull >= 0 && r.ticketsIncr >= 0
+//@   ensures [one-run-per-id] old(has(r.runningJobs, job.id)) ==> result == nil
+//@   ensures [refusal-changes-nothing] result == nil ==> r.ticketsFull == old(r.ticketsFull) && r.ticketsIncr == old(r.ticketsIncr)
+//@     | && (forall k string :: has(r.runningJobs, k) <==> old(has(r.runningJobs, k)))
+//@   ensures [ticket-registered] result != nil ==> result.runState != nil && has(r.runningJobs, job.id) && r.runningJobs[job.id] == result.runState
+//@     | && result.runState.id == job.id && result.runState.isFull == isFullP(job.pipeline)
+//@   ensures [ticket-accounting] result != nil ==> (isFullP(job.pipeline) ==> r.ticketsFull == old(r.ticketsFull) - 1 && r.ticketsIncr == old(r.ticketsIncr))
+//@     | && (!isFullP(job.pipeline) ==> r.ticketsIncr == old(r.ticketsIncr) - 1 && r.ticketsFull == old(r.ticketsFull))
+//@   ensures [pool-not-exceeded] r.ticketsFull >= 0 && r.ticketsIncr >= 0
+//@   ensures [others-untouched] forall k string :: k != job.id ==> (has(r.runningJobs, k) <==> old(has(r.runningJobs, k)))
+//@   ensures [lock-released] $held == old($held)
+//@   modifies $held, raffle.ticketsFull, raffle.ticketsIncr, map[string]*jobs.runState, runState.*, ticket.*, []string, []interface{}
+
+//@ unit (*raffle).returnTicket
+//@   prop C11
+//@   requires r != nil && ticket != nil && ticket.runState != nil && r.runningJobs != nil && !has($held, addrOf(r.runningMu))
+//@   ensures [slot-released] !has(r.runningJobs, ticket.runState.id)
+//@   ensures [ticket-returned] (ticket.runState.isFull ==> r.ticketsFull == old(r.ticketsFull) + 1 && r.ticketsIncr == old(r.ticketsIncr))
+//@     | && (!ticket.runState.isFull ==> r.ticketsIncr == old(r.ticketsIncr) + 1 && r.ticketsFull == old(r.ticketsFull))
+//@   ensures [others-untouched] forall k string :: k != ticket.runState.id ==> (has(r.runningJobs, k) <==> old(has(r.runningJobs, k)))
+//@   ensures [lock-released] $held == old($held)
+//@   modifies $held, raffle.ticketsFull, raffle.ticketsIncr, map[string]*jobs.runState, []string, []interface{}
+
+//@ unit (*raffle).runningJob
+//@   prop C11
+//@   requires r != nil && !has($held, addrOf(r.runningMu))
+//@   ensures [lookup] has(r.runningJobs, jobid) ==> result == r.runningJobs[jobid]
+//@   ensures [lock-released] $held == old($held)
+//@   modifies $held
+
+//@ unit (*raffle).getRunningJobs
+//@   prop C11
+//@   requires r != nil && !has($held, addrOf(r.runningMu))
+//@   ensures [snapshot-copy] result != r.runningJobs
+//@   ensures [lock-released] $held == old($held)
+//@   modifies $held, map[string]*jobs.runState
+//@   loop 1
+//@     invariant result != 0 && result != r.runningJobs
+
+// ---------------------------------------------------------------------------
+// C17: bisecting sink wrapper. rej-count over a slice of the (immutable) batch array: cnt(arr, lo, hi)
+
+//@ ghost $delivered int
+//@ ghost $reported int
+//@ ghost $hcount int
+//@ ghost $hmax int
+//@ spec cnt(arr int, lo int, hi int) int
+//@ axiom cnt_range: forall a int, lo int, hi int :: lo <= hi ==> 0 <= cnt(a, lo, hi) && cnt(a, lo, hi) <= hi - lo
+//@ lemma cnt_split(a int, lo int, mid int, hi int): lo <= mid && mid <= hi ==> cnt(a, lo, hi) == cnt(a, lo, mid) + cnt(a, mid, hi)
+//@ axiom cnt_split_ax: forall a int, lo int, mid int, hi int :: lo <= mid && mid <= hi ==> cnt(a, lo, hi) == cnt(a, lo, mid) + cnt(a, mid, hi)
+//@ spec loOf(s slice) int = offOf(s)
+//@ spec hiOf(s slice) int = offOf(s) + len(s)
+
+// the wrapped sink: all-or-nothing and deterministic (a batch is accepted iff it contains no rejected entity)
+//@ assumed (jobs.Sink).processEntities
+//@   modifies $delivered
+//@   ensures (result == nil) <==> cnt(arrOf(entities), loOf(entities), hiOf(entities)) == 0
+//@   ensures result == nil ==> $delivered == old($delivered) + len(entities)
+//@   ensures result != nil ==> $delivered == old($delivered)
+
+// a failing-entity handler seen through its interface: counts, and stops at its budget
+//@ assumed (jobs.failingEntityHandler).handleFailingEntity
+//@   modifies $hcount, $reported
+//@   ensures $hcount == old($hcount) + 1 && $reported == old($reported) + 1
+//@   ensures (result != nil) <==> ($hmax > 0 && $hcount >= $hmax)
+//@   ensures result != nil ==> result == MaxItemsExceededError
+
+//@ unit (*LogFailingEntityHandler).handleFailingEntity
+//@   prop C17
+//@   requires l != nil && runner != nil && entity != nil && MaxItemsExceededError != nil
+//@   ensures [counts-once] l.count == old(l.count) + 1
+//@   ensures [stops-at-max] (result != nil) <==> (l.MaxItems > 0 && l.count >= l.MaxItems)
+//@   ensures [max-items-error] result != nil ==> result == MaxItemsExceededError
+//@   modifies LogFailingEntityHandler.count, []interface{}
+
+//@ unit (*wrappedSink).processEntities
+//@   prop C17
+//@   requires w != nil && len(w.failingEntityHandlers) == 1
+//@   requires MaxItemsExceededError != nil
+//@   requires [budget-open] $hmax <= 0 || $hcount < $hmax
+//@   ensures [isolated] result == nil ==> $delivered == old($delivered) + len(entities) - cnt(arrOf(entities), loOf(entities), hiOf(entities))
+//@     | && $reported == old($reported) + cnt(arrOf(entities), loOf(entities), hiOf(entities))
+//@   ensures [budget-still-open] result == nil ==> ($hmax <= 0 || $hcount < $hmax)
+//@   ensures [stops-at-max-items] result != nil ==> result == MaxItemsExceededError && $hmax > 0 && $hcount >= $hmax
+//@   ensures [reported-once-each] $reported - old($reported) == $hcount - old($hcount) && $reported - old($reported) <= cnt(arrOf(entities), loOf(entities), hiOf(entities)) && $reported >= old($reported)
+//@   ensures [never-delivers-rejected] $delivered >= old($delivered) && $delivered - old($delivered) <= len(entities) - cnt(arrOf(entities), loOf(entities), hiOf(entities))
+//@   decreases len(entities)
+//@   modifies $delivered, $reported, $hcount, wrappedSink.lastError, wrappedSink.recursionDepth
+//@   safe slice index
+//@   loop 1
+//@     invariant -1 <= $i && $i < len(w.failingEntityHandlers)
+//@     invariant $i == -1 ==> $reported == old($reported) && $hcount == old($hcount)
+//@     invariant $i >= 0 ==> $reported == old($reported) + len(entities) && $hcount == old($hcount) + len(entities) && ($hmax <= 0 || $hcount < $hmax)
+//@     invariant $delivered == old($delivered)
+//@     decreases len(w.failingEntityHandlers) - $i
+//@   loop 2
+//@     invariant -1 <= $i && $i < len(entities)
+//@     invariant $reported == old($reported) + $i + 1 && $hcount == old($hcount) + $i + 1 && ($hmax <= 0 || $hcount < $hmax)
+//@     invariant $delivered == old($delivered)
+//@     decreases len(entities) - $i
+
+// ---------------------------------------------------------------------------
+// C11: job.Run returns the ticket on every path and never starts a second run of a running id
+
+//@ ghost $syncCalls int
+
+//@ assumed (jobs.Pipeline).sync
+//@   preserves raffle.*, map[string]*jobs.runState, runState.*, ticket.*, job.*, Runner.*
+//@   modifies $syncCalls
+//@   ensures $syncCalls == old($syncCalls) + 1
+
+//@ assumed (jobs.Pipeline).spec
+//@   pure
+//@ assumed (source.Source).GetConfig
+//@   pure
+//@ assumed (jobs.Sink).GetConfig
+//@   pure
+//@ assumed os.LookupEnv
+//@   pure
+//@ assumed jobs.queueRetry
+//@   pure
+//@ assumed (*job).instrumentErrorHandling
+//@   preserves raffle.*, map[string]*jobs.runState, runState.*, ticket.*, job.id, job.runner, job.pipeline, Runner.*
+//@ assumed (*job).handleJobError
+//@   preserves raffle.*, map[string]*jobs.runState, runState.*, ticket.*, job.id, job.runner, job.pipeline, Runner.*
+
+//@ unit (*job).Run
+//@   prop C11
+//@   requires j != nil && j.runner != nil && j.runner.raffle != nil && j.runner.raffle.runningJobs != nil && !has($held, addrOf(j.runner.raffle.runningMu))
+//@   requires j.runner.raffle.ticketsFull >= 0 && j.runner.raffle.ticketsIncr >= 0
+//@   ensures [tickets-conserved] j.runner.raffle.ticketsFull == old(j.runner.raffle.ticketsFull) && j.runner.raffle.ticketsIncr == old(j.runner.raffle.ticketsIncr)
+//@   ensures [slot-released] !old(has(j.runner.raffle.runningJobs, j.id)) ==> !has(j.runner.raffle.runningJobs, j.id)
+//@   ensures [no-overlapping-run] old(has(j.runner.raffle.runningJobs, j.id)) ==> $syncCalls == old($syncCalls)
+//@   ensures [pool-respected] (isFullP(j.pipeline) && old(j.runner.raffle.ticketsFull) == 0) || (!isFullP(j.pipeline) && old(j.runner.raffle.ticketsIncr) == 0) ==> $syncCalls == old($syncCalls)
+//@   ensures [at-most-one-sync] $syncCalls <= old($syncCalls) + 1
+//@   ensures [outcome-recorded] $syncCalls == old($syncCalls) + 1 ==> has($storeAttempted, j.id)
+//@   ensures [lock-released] $held == old($held)
